@@ -260,3 +260,38 @@ fn c01_cover() {
     kani::cover!(l && g::has(p.pcs[r::KING as usize], s) && (g::file_of(d) as i8 - g::file_of(s) as i8).abs() == 2);
     kani::cover!(!l && g::has(b.pinned.to_u64(), s) && g::has(p.pcs[r::KNIGHT as usize] & p.col[p.turn as usize], s));
 }
+
+// ---------------------------------------------------------------- loop skeletons (bounded): real iterator, <= 2 pieces of the type
+macro_rules! piece_loop2 {
+    ($name:ident, $ty:ty, $pc:expr, $check:expr, $nchk:expr) => {
+        #[kani::proof]
+        #[kani::unwind(9)]
+        #[kani::stub_verified(chess_lookup::between)]
+        #[kani::stub_verified(chess_lookup::line)]
+        #[kani::stub_verified(chess_lookup::knight_moves)]
+        #[kani::stub_verified(chess_lookup::rook_moves)]
+        #[kani::stub_verified(chess_lookup::bishop_moves)]
+        fn $name() {
+            let (b, p) = inv_board($nchk);
+            let own = p.col[p.turn as usize];
+            kani::assume((own & p.pcs[$pc as usize]).count_ones() <= 2);
+            let user_mask: BitBoard = kani::any();
+            let mask = !b.raw[b.turn] & user_mask;
+            let mut list = MoveList::default();
+            <$ty as PieceType>::legals::<{ $check }>(&mut list, &b, mask);
+            assert!(list.len() <= 2 && well_shaped(&list, own, p.pcs[$pc as usize], mask), "VERIF entries malformed");
+            let s: u8 = kani::any();
+            let d: u8 = kani::any();
+            kani::assume(s < 64 && d < 64 && g::has(own & p.pcs[$pc as usize], s));
+            let want = r::legal(&p, r::Mv { src: s, dst: d, promo: 0 }) && mask.contains(Pos::from_u8(d).unwrap());
+            let got = entry_count(&list, s, d);
+            assert!(got == if want { 1 } else { 0 }, "VERIF {:?} {}->{}: generated {} times, legal&&masked = {} (real loop, <= 2 pieces)", $pc, s, d, got, want);
+        }
+    };
+}
+piece_loop2!(c01_knight_nocheck_loop2, Knight, r::KNIGHT, false, 0);
+piece_loop2!(c01_knight_check_loop2, Knight, r::KNIGHT, true, 1);
+piece_loop2!(c01_bishop_nocheck_loop2, Bishop, r::BISHOP, false, 0);
+piece_loop2!(c01_rook_nocheck_loop2, Rook, r::ROOK, false, 0);
+piece_loop2!(c01_queen_nocheck_loop2, Queen, r::QUEEN, false, 0);
+piece_loop2!(c01_queen_check_loop2, Queen, r::QUEEN, true, 1);
